@@ -28,7 +28,7 @@ def world():
     return _IMPL
 
 
-class Log:
+class Log(C.LogBase):
     """logger stand-in: who logged an exception, and from where"""
 
     def __init__(self, route):
@@ -43,7 +43,7 @@ class Log:
         fr = sys._getframe(1)
         who = fr.f_locals.get("self")
         kind = S.exc_kind(sys.exc_info()[0])
-        tag = "R" if fr.f_code.co_name in ("socket_read_task", "heartbeat_timer_task") else "C"
+        tag = "R" if C.log_origin() == "task" else "C"
         self.route(who).append((tag, kind))
 
 
